@@ -257,6 +257,36 @@ void round_trip(const A15Plan *p)
     } catch (const std::runtime_error &) {
     }
   }
+  // requests so large that cursor + size wraps around: a view or a skip (read into no buffer) of that size extends
+  // past the data like any other
+  {
+    BufferReader rh(rbuf);
+    uint8_t first;
+    if (cut > 0)
+      rh >> first;
+    const size_t at = rh.cursor;
+    const size_t absurd[] = {~(size_t)0, ~(size_t)0 - at + 1, ~(size_t)0 - at + 1 + cut / 2, ((size_t)1 << 63) + 7};
+    for (size_t n : absurd) {
+      if (n <= cut - at)
+        continue;
+      for (int how = 0; how < 2; how++) {
+        bool threw = false;
+        try {
+          if (how == 0)
+            rh.getView<uint8_t>(n);
+          else
+            rh.read(nullptr, n);
+        } catch (const std::runtime_error &) {
+          threw = true;
+        }
+        if (!threw || rh.cursor != at) {
+          a15_fail(how == 0 ? "C15:view-past-end-accepted" : "C15:read-past-end-accepted",
+                   "a request whose size makes cursor + size wrap around was not refused (or moved the cursor)");
+          return;
+        }
+      }
+    }
+  }
   // views: read the whole (uncut part of the) stream again through getView
   {
     BufferReader rv(rbuf);
@@ -350,7 +380,7 @@ void fixed_device(const A15Plan *p)
   // total bytes the script would need
   size_t needed = 0;
   for (int i = 0; i < p->nfix; i++)
-    needed += (size_t)p->fix[i].size;
+    needed += p->fix[i].size > 0 ? (size_t)p->fix[i].size : 0;
   size_t cap;
   switch (p->capacity_choice) {
   case 0: cap = needed ? needed - 1 : 0; break;
@@ -366,6 +396,28 @@ void fixed_device(const A15Plan *p)
     return;
   }
   for (int i = 0; i < p->nfix; i++) {
+    if (p->fix[i].size < 0) {
+      // a request so large that cursor + size wraps around (a reservation, or a write from no buffer): it does not fit
+      const size_t at = model.size();
+      const size_t n = p->fix[i].size == -1 ? ~(size_t)0 : (p->fix[i].size == -2 ? ~(size_t)0 - at + 1 + (cap - at) / 2 : ((size_t)1 << 63) + 3);
+      bool threw = false;
+      if (n > cap - at) {
+        try {
+          if (p->fix[i].reserve)
+            fw.reserve(n);
+          else
+            fw.write(nullptr, n);
+        } catch (const std::runtime_error &) {
+          threw = true;
+        }
+        if (!threw || fw.cursor != at || fw.available() != cap - at) {
+          a15_fail("C15:fixed:overflowing-write-accepted", "a write/reservation whose size makes cursor + size wrap around was accepted (or changed the cursor)");
+          return;
+        }
+        rejected++;
+      }
+      continue;
+    }
     size_t n = (size_t)p->fix[i].size;
     bool fits = model.size() + n <= cap;
     if (model.size() + n == cap)
